@@ -13,12 +13,16 @@ Fixpoint lcg (n : nat) (x : Z) : list Z :=
   end.
 Definition pl_bytes (p : pl) : list Z := match p with PLit l => l | PGen s n => lcg n (s mod 2147483648) end.
 
+Fixpoint zremove1 (x : Z) (l : list Z) : list Z :=
+  match l with [] => [] | y :: r => if y =? x then r else y :: zremove1 x r end.
+
 Inductive op :=
 | OpSubscribe (cid : Z) (f : filt)
 | OpUnsubscribe (cid : Z)
 | OpAddCa (name : Z) (pref : option Z) (bypass : bool)
 | OpCaSubscribe (i : nat) (cid : Z)
 | OpCaSubReq (i : nat) (cid : Z)
+| OpCaUnsubReq (i : nat) (cid : Z)
 | OpAddTimer (now delta cid : Z) (ret : bool)
 | OpRemoveTimer (cid : Z)
 | OpSend (now dp pf ps prio sa : Z) (data : pl)
@@ -42,6 +46,12 @@ Definition handler (o : op) (n : node) : act node :=
   | OpCaSubReq i cid =>
       match nth_error (n_cas n) i with
       | Some c => Done (set_ca n i (with_ca_reqs c (c_reqs c ++ [cid]))) 0
+      | None => Raise n E_Alias
+      end
+  | OpCaUnsubReq i cid =>          (* list.remove: the first equal entry goes, ValueError when there is none *)
+      match nth_error (n_cas n) i with
+      | Some c => if existsb (Z.eqb cid) (c_reqs c) then Done (set_ca n i (with_ca_reqs c (zremove1 cid (c_reqs c)))) 0
+                  else Raise n E_Value
       | None => Raise n E_Alias
       end
   | OpAddTimer now delta cid ret => Done (add_timer n now delta (TApp cid) ret) 0
